@@ -448,7 +448,7 @@ Proof.
   rewrite (filter_filter_same (fun kv => pass1 (snd kv)) (fun kv => pass1 (snd kv))) by auto.
   rewrite (filter_filter_same (fun kv => pass2 (snd kv)) (fun kv => pass2 (snd kv))) by auto.
   rewrite (filter_filter_same (fun kv => pass3 (snd kv)) (fun kv => pass3 (snd kv))) by auto.
-  rewrite !filter_filter_disj; [reflexivity| | | | | |]; intros [k x] H; cbn [snd] in *;
+  rewrite !filter_filter_disj; [cbn [app]; rewrite !app_nil_r; reflexivity| | | | | |]; intros [k x] H; cbn [snd] in *;
     destruct (pass_cases x) as [(A & B & C)|[(A & B & C)|(A & B & C)]]; congruence.
 Qed.
 
@@ -472,4 +472,195 @@ Proof.
     apply map_ext_in. intros kv Hin. f_equal.
     assert (Hm : In kv m) by (eapply Permutation_in; [apply order3_perm|exact Hin]).
     rewrite Forall_forall in IH. apply IH. exact Hm.
+Qed.
+
+(* ------------------------------------------------------------------------------------------ *)
+(** * writing the value that was read back gives the same document *)
+
+Lemma class_excl x :
+  (is_plain x = true -> is_mixed x = false /\ is_aot x = false /\ is_table x = false) /\
+  (is_mixed x = true -> is_plain x = false /\ is_aot x = false /\ is_table x = false) /\
+  (is_aot x = true -> is_plain x = false /\ is_mixed x = false /\ is_table x = false) /\
+  (is_table x = true -> is_plain x = false /\ is_mixed x = false /\ is_aot x = false).
+Proof.
+  destruct (class_cases x) as [(A & B & C & D)|[(A & B & C & D)|[(A & B & C & D)|(A & B & C & D)]]];
+    rewrite A, B, C, D; repeat split; congruence.
+Qed.
+
+Lemma order4_plain m : filter (fun kv => is_plain (snd kv)) (order4 m) = filter (fun kv => is_plain (snd kv)) m.
+Proof.
+  unfold order4. rewrite !filter_app. rewrite filter_filter_same by auto.
+  rewrite !filter_filter_disj; [cbn [app]; rewrite ?app_nil_r; reflexivity| | |]; intros [k x] H; cbn [snd] in *;
+    pose proof (class_excl x); intuition congruence.
+Qed.
+Lemma order4_mixed m : filter (fun kv => is_mixed (snd kv)) (order4 m) = filter (fun kv => is_mixed (snd kv)) m.
+Proof.
+  unfold order4. rewrite !filter_app. rewrite (filter_filter_same (fun kv => is_mixed (snd kv)) (fun kv => is_mixed (snd kv))) by auto.
+  rewrite !filter_filter_disj; [cbn [app]; rewrite ?app_nil_r; reflexivity| | |]; intros [k x] H; cbn [snd] in *;
+    pose proof (class_excl x); intuition congruence.
+Qed.
+Lemma order4_aot m : filter (fun kv => is_aot (snd kv)) (order4 m) = filter (fun kv => is_aot (snd kv)) m.
+Proof.
+  unfold order4. rewrite !filter_app. rewrite (filter_filter_same (fun kv => is_aot (snd kv)) (fun kv => is_aot (snd kv))) by auto.
+  rewrite !filter_filter_disj; [cbn [app]; rewrite ?app_nil_r; reflexivity| | |]; intros [k x] H; cbn [snd] in *;
+    pose proof (class_excl x); intuition congruence.
+Qed.
+Lemma order4_table m : filter (fun kv => is_table (snd kv)) (order4 m) = filter (fun kv => is_table (snd kv)) m.
+Proof.
+  unfold order4. rewrite !filter_app. rewrite (filter_filter_same (fun kv => is_table (snd kv)) (fun kv => is_table (snd kv))) by auto.
+  rewrite !filter_filter_disj; [cbn [app]; rewrite ?app_nil_r; reflexivity| | |]; intros [k x] H; cbn [snd] in *;
+    pose proof (class_excl x); intuition congruence.
+Qed.
+
+Lemma nonempty_perm {A} (l l' : list A) : Permutation l l' -> nonempty l = nonempty l'.
+Proof.
+  intro P. destruct l; destruct l'; try reflexivity.
+  - apply Permutation_nil in P. discriminate.
+  - apply Permutation_sym, Permutation_nil in P. discriminate.
+Qed.
+
+Lemma filter_ckv ml (p : tv -> bool) l : (forall x, p (centry ml x) = p x) ->
+  filter (fun kv => p (snd kv)) (map (ckv ml) l) = map (ckv ml) (filter (fun kv => p (snd kv)) l).
+Proof. intro H. exact (filter_map_kv (centry ml) p l H). Qed.
+
+Lemma lines_where_canon ml ml' (p : tv -> bool) l l0 :
+  (forall x, p (centry ml x) = p x) -> (forall x, p x = true -> is_line x = true) ->
+  filter (fun kv => p (snd kv)) l = filter (fun kv => p (snd kv)) l0 ->
+  lines_where ml' p (map (ckv ml) l) = lines_where ml' p l0.
+Proof.
+  intros Hc Hl E. unfold lines_where. rewrite (filter_ckv ml p l Hc), E, map_map. unfold ckv. cbn [fst snd].
+  apply map_ext_in_filter. intros [k x] H. cbn [fst snd] in *. f_equal.
+  rewrite (centry_line ml x (Hl x H)). apply inline_gval.
+Qed.
+
+Lemma flat_map_map {A B C} (f : A -> B) (g : B -> list C) l : flat_map g (map f l) = flat_map (fun x => g (f x)) l.
+Proof. induction l as [|x r IH]; [reflexivity|]. cbn [map flat_map]. rewrite IH. reflexivity. Qed.
+
+Lemma flat_map_canon ml (F : bytes * tv -> list section) (cls : tv -> bool) (l l0 : list (bytes * tv)) :
+  (forall kv, F kv = if cls (snd kv) then F kv else []) ->
+  (forall x, cls (centry ml x) = cls x) ->
+  filter (fun kv => cls (snd kv)) l = filter (fun kv => cls (snd kv)) l0 ->
+  (forall kv, In kv l0 -> cls (snd kv) = true -> F (ckv ml kv) = F kv) ->
+  flat_map F (map (ckv ml) l) = flat_map F l0.
+Proof.
+  intros HF Hc E Hp.
+  rewrite (flat_map_filter (fun kv => cls (snd kv)) F F (map (ckv ml) l) HF).
+  rewrite (flat_map_filter (fun kv => cls (snd kv)) F F l0 HF).
+  rewrite (filter_ckv ml cls l Hc), E, flat_map_map. apply flat_map_ext_Forall. apply Forall_forall.
+  intros kv Hin. apply filter_In in Hin as [Hin H]. apply Hp; assumption.
+Qed.
+
+Definition fix_ok (ml : bool) (v : tv) : Prop :=
+  is_table v = true -> forall ml' p kind, sections_at ml' true (cdoc ml v) p kind = sections_at ml' true v p kind.
+
+Lemma aot_secs_self ml p kv : aot_secs ml p kv = if is_aot (snd kv) then aot_secs ml p kv else [].
+Proof. unfold aot_secs. destruct (is_aot (snd kv)); reflexivity. Qed.
+Lemma tab_secs_self ml p kv : tab_secs ml p kv = if is_table (snd kv) then tab_secs ml p kv else [].
+Proof. unfold tab_secs. destruct (snd kv); reflexivity. Qed.
+Lemma sub_secs_self ml p kv : sub_secs ml p kv = if negb (is_line (snd kv)) then sub_secs ml p kv else [].
+Proof.
+  unfold sub_secs, is_line. destruct (snd kv) as [t|l|m'] eqn:E; try reflexivity.
+  cbn [is_table negb andb]. destruct (is_aot (TArr l)); reflexivity.
+Qed.
+
+Lemma elems_fix ml ml' p k l : forallb is_table l = true -> Forall (fix_ok ml) l ->
+  elem_secs ml' p k (map (cdoc ml) l) = elem_secs ml' p k l.
+Proof.
+  intros T H. unfold elem_secs. rewrite flat_map_map. apply flat_map_ext_Forall.
+  rewrite forallb_forall in T. rewrite Forall_forall in H |- *. intros e He. apply (H e He). apply T. exact He.
+Qed.
+
+Lemma entry_fix ml kv :
+  fix_ok ml (snd kv) -> (forall l, snd kv = TArr l -> Forall (fix_ok ml) l) ->
+  forall ml' p,
+    (is_aot (snd kv) = true -> aot_secs ml' p (ckv ml kv) = aot_secs ml' p kv) /\
+    (is_table (snd kv) = true -> tab_secs ml' p (ckv ml kv) = tab_secs ml' p kv) /\
+    (negb (is_line (snd kv)) = true -> sub_secs ml' p (ckv ml kv) = sub_secs ml' p kv).
+Proof.
+  destruct kv as [k x]. cbn [snd]. intros Hx Hl ml' p.
+  assert (HA : is_aot x = true -> aot_secs ml' p (ckv ml (k, x)) = aot_secs ml' p (k, x) /\
+                                  sub_secs ml' p (ckv ml (k, x)) = sub_secs ml' p (k, x)).
+  { intro A. destruct x as [t|l|m']; try discriminate.
+    assert (Tl : forallb is_table l = true) by (destruct l; [discriminate|exact A]).
+    pose proof (is_aot_centry ml (TArr l)) as A'. rewrite A in A'.
+    unfold aot_secs, sub_secs, ckv. cbn [fst snd]. rewrite A'. cbn [centry]. rewrite A.
+    rewrite (elems_fix ml ml' p k l Tl (Hl l eq_refl)). split; reflexivity. }
+  assert (HT : is_table x = true -> tab_secs ml' p (ckv ml (k, x)) = tab_secs ml' p (k, x) /\
+                                    sub_secs ml' p (ckv ml (k, x)) = sub_secs ml' p (k, x)).
+  { intro T. destruct x as [t|l|m']; try discriminate.
+    pose proof (Hx eq_refl ml' (p ++ [k]) KStd) as E.
+    unfold tab_secs, sub_secs, ckv. cbn [fst snd centry]. unfold cdoc at 1 3. cbn beta iota.
+    split; exact E. }
+  repeat split.
+  - intro A. exact (proj1 (HA A)).
+  - intro T. exact (proj1 (HT T)).
+  - intro N. destruct (not_line_cases x N) as [A|T]; [exact (proj2 (HA A))|exact (proj2 (HT T))].
+Qed.
+
+Lemma fix_level ml m :
+  Forall (fun kv => fix_ok ml (snd kv) /\ forall l, snd kv = TArr l -> Forall (fix_ok ml) l) m ->
+  fix_ok ml (TTab m).
+Proof.
+  intros IH _ ml' p kind. rewrite cdoc_tab, !sections_at_tab. rewrite Forall_forall in IH.
+  assert (EL : own_lines ml' true (map (ckv ml) (order4 m)) = own_lines ml' true m).
+  { unfold own_lines. f_equal; apply lines_where_canon.
+    - apply is_plain_centry. - apply is_plain_line. - apply order4_plain.
+    - apply is_mixed_centry. - apply is_mixed_line. - apply order4_mixed. }
+  f_equal.
+  - unfold own_section. rewrite EL.
+    assert (EN : nonempty (map (ckv ml) (order4 m)) = nonempty m).
+    { rewrite nonempty_map. apply nonempty_perm. apply order4_perm. }
+    destruct kind; cbn [own_visible]; rewrite ?EN; reflexivity.
+  - f_equal.
+    + apply (flat_map_canon ml (aot_secs ml' p) is_aot).
+      * apply aot_secs_self. * apply is_aot_centry. * apply order4_aot.
+      * intros kv Hin A. destruct (IH kv Hin) as [Hx Hl]. exact (proj1 (entry_fix ml kv Hx Hl ml' p) A).
+    + apply (flat_map_canon ml (tab_secs ml' p) is_table).
+      * apply tab_secs_self. * apply is_table_centry. * apply order4_table.
+      * intros kv Hin T. destruct (IH kv Hin) as [Hx Hl]. exact (proj1 (proj2 (entry_fix ml kv Hx Hl ml' p)) T).
+Qed.
+
+Lemma fix_ok_all ml v : fix_ok ml v.
+Proof.
+  induction v as [t|l IH|m IH] using tv_ind2.
+  - intro T. discriminate.
+  - intro T. discriminate.
+  - apply fix_level. exact IH.
+Qed.
+
+Lemma filter_line_split (m : list (bytes * tv)) :
+  filter (fun kv => is_line (snd kv))
+    (filter (fun kv => is_line (snd kv)) m ++ filter (fun kv => negb (is_line (snd kv))) m)
+  = filter (fun kv => is_line (snd kv)) m.
+Proof.
+  rewrite filter_app, filter_filter_same by auto.
+  rewrite filter_filter_disj; [apply app_nil_r|]. intros kv H. apply negb_true_iff in H. exact H.
+Qed.
+
+Lemma filter_nonline_split (m : list (bytes * tv)) :
+  filter (fun kv => negb (is_line (snd kv)))
+    (filter (fun kv => is_line (snd kv)) m ++ filter (fun kv => negb (is_line (snd kv))) m)
+  = filter (fun kv => negb (is_line (snd kv))) m.
+Proof.
+  rewrite filter_app. rewrite (filter_filter_same (fun kv => negb (is_line (snd kv))) (fun kv => negb (is_line (snd kv)))) by auto.
+  rewrite filter_filter_disj; [reflexivity|]. intros kv H. rewrite H. reflexivity.
+Qed.
+
+Theorem fixpoint_canonical ml ml' three m :
+  sections_of ml' three (canon_root ml three m) = sections_of ml' three m.
+Proof.
+  unfold sections_of, canon_root. destruct three.
+  - pose proof (fix_ok_all ml (TTab m) eq_refl ml' [] KRoot) as H. rewrite cdoc_tab in H. exact H.
+  - rewrite !sections_at_tab. f_equal.
+    + unfold own_section. cbn [own_visible]. do 2 f_equal.
+      unfold own_lines. apply lines_where_canon; [apply is_line_centry|auto|apply filter_line_split].
+    + apply (flat_map_canon ml (sub_secs ml' []) (fun x => negb (is_line x))).
+      * apply sub_secs_self.
+      * intro x. rewrite is_line_centry. reflexivity.
+      * apply filter_nonline_split.
+      * intros kv Hin N.
+        assert (Hx : fix_ok ml (snd kv)) by apply fix_ok_all.
+        assert (Hl : forall l, snd kv = TArr l -> Forall (fix_ok ml) l).
+        { intros l _. apply Forall_forall. intros e _. apply fix_ok_all. }
+        exact (proj2 (proj2 (entry_fix ml kv Hx Hl ml' [])) N).
 Qed.
